@@ -197,3 +197,23 @@ Proof.
 Qed.
 Theorem empty_string_rejected : parse [] = PErr EMissingPath.
 Proof. reflexivity. Qed.
+
+(* acceptance is sound for EVERY input string, not only for rendered ones: whatever was typed after --generator, an accepted
+   specification has a non-empty path and no argument with an empty key (so "rejected rather than accepted" has no gap) *)
+Theorem accepted_is_wellformed s p l : parse s = POk p l -> p <> [] /\ Forall (fun kv => fst kv <> []) l.
+Proof.
+  unfold parse. destruct (parse_raw s) as [[p0 l0]|]; [|discriminate]. cbv zeta.
+  destruct (is_nil (trim p0)) eqn:Ep; [discriminate|].
+  destruct (existsb (fun kv => is_nil (fst kv)) (map trim2 l0)) eqn:Ee; [discriminate|].
+  intros H. inversion H; subst. split.
+  - intros X. rewrite X in Ep. discriminate.
+  - apply Forall_forall. intros kv Hin X.
+    assert (existsb (fun kv => is_nil (fst kv)) (map trim2 l0) = true) by (apply existsb_exists; exists kv; split; [assumption|rewrite X; reflexivity]).
+    congruence.
+Qed.
+(* and a second unescaped '=' is the only way to get EDoubleEq: the error classes are decided by the raw scan alone *)
+Theorem double_eq_iff_scan_fails s : parse s = PErr EDoubleEq <-> parse_raw s = None.
+Proof.
+  unfold parse. destruct (parse_raw s) as [[p0 l0]|]; [|tauto]. cbv zeta. split; [|discriminate].
+  destruct (is_nil (trim p0)); [discriminate|]. destruct (existsb _ _); discriminate.
+Qed.
